@@ -85,6 +85,8 @@ const (
 	OpFFromUInt
 	OpFToSInt // RTZ, result width Sort.W; unspecified outside range (callers guard with ite)
 	OpFConv
+	OpFAbs
+	OpFRound // round to integral; Lo selects the mode: 0 RNE, 1 RNA, 2 RTP (ceil), 3 RTN (floor), 4 RTZ (trunc)
 )
 
 var opName = map[Op]string{
@@ -1050,6 +1052,40 @@ func (c *Ctx) FToSInt(a *T, w int) *T {
 	return c.mk(&T{Op: OpFToSInt, Sort: Sort{BV, w}, Args: []*T{a}})
 }
 
+var fRoundModes = [...]string{"RNE", "RNA", "RTP", "RTN", "RTZ"}
+
+func evalFRound(mode int, w int, v uint64) uint64 {
+	f := fval(w, v)
+	var r float64
+	switch mode {
+	case 0:
+		r = math.RoundToEven(f)
+	case 1:
+		r = math.Round(f)
+	case 2:
+		r = math.Ceil(f)
+	case 3:
+		r = math.Floor(f)
+	default:
+		r = math.Trunc(f)
+	}
+	return fbits(w, r)
+}
+
+func (c *Ctx) FRound(a *T, mode int) *T {
+	if a.IsConst() {
+		return c.FPConst(a.Sort.W, evalFRound(mode, a.Sort.W, a.Val))
+	}
+	return c.mk(&T{Op: OpFRound, Sort: a.Sort, Args: []*T{a}, Lo: mode})
+}
+
+func (c *Ctx) FAbs(a *T) *T {
+	if a.IsConst() {
+		return c.FPConst(a.Sort.W, a.Val&^(uint64(1)<<uint(a.Sort.W-1)))
+	}
+	return c.mk(&T{Op: OpFAbs, Sort: a.Sort, Args: []*T{a}})
+}
+
 func (c *Ctx) FConv(a *T, w int) *T {
 	if a.Sort.W == w {
 		return a
@@ -1157,6 +1193,10 @@ func (c *Ctx) Eval(t *T, m Model, memo map[int]uint64) uint64 {
 		r = evalFToSInt(t.Args[0].Sort.W, t.Sort.W, ev(0))
 	case OpFConv:
 		r = fbits(t.Sort.W, fval(t.Args[0].Sort.W, ev(0)))
+	case OpFAbs:
+		r = ev(0) &^ (uint64(1) << uint(t.Sort.W-1))
+	case OpFRound:
+		r = evalFRound(t.Lo, t.Sort.W, ev(0))
 	default:
 		panic(fmt.Sprintf("eval: op %d", t.Op))
 	}
@@ -1233,6 +1273,10 @@ func Body(t *T) string {
 		return fmt.Sprintf("((_ fp.to_sbv %d) RTZ %s)", t.Sort.W, r(0))
 	case OpFConv:
 		return fmt.Sprintf("(%s RNE %s)", fpTo(t.Sort.W), r(0))
+	case OpFAbs:
+		return fmt.Sprintf("(fp.abs %s)", r(0))
+	case OpFRound:
+		return fmt.Sprintf("(fp.roundToIntegral %s %s)", fRoundModes[t.Lo], r(0))
 	}
 	n, ok := opName[t.Op]
 	if !ok {
